@@ -221,7 +221,18 @@ def cPipe : Handler := fun j => do
   let cat ← (← arg j "catalyst").getBool?
   let old := (← strList (← arg j "old")).map lexC
   let new := (← strList (← arg j "new")).map lexC
-  match (cLeaf m cat old new : Except Err (List (Yield CRow String))) with
+  -- optional: the interface diff logic of the vendor and which sides are port-channel members
+  let iface := match j.getObjVal? "iface" with
+    | .ok (Json.str "nexus") => some IfaceDiff.nexus
+    | .ok (Json.str "cisco") => some IfaceDiff.cisco
+    | _ => none
+  let flag (k : String) : Bool := match j.getObjVal? k with
+    | .ok (Json.bool b) => b
+    | _ => false
+  let r : Except Err (List (Yield CRow String)) := match iface with
+    | some d => cLeafIface d m cat (flag "old_member") (flag "new_member") old new
+    | none => cLeaf m cat old new
+  match r with
   | .ok ys => pure (Json.mkObj [("ok", jYieldsC ys)])
   | .error e => pure (jErr e)
 
